@@ -30,6 +30,7 @@ type conn struct {
 	results  map[int]chan data
 	lock     sync.Mutex
 	counter  int32
+	closed   error
 	onClose  func(net.Conn)
 	once     sync.Once
 }
@@ -67,17 +68,21 @@ func newConn(ctx context.Context, onConnect func(net.Conn) net.Conn, onClose fun
 }
 
 // register stores resultChan under the next request index that no pending call is using.
-func (c *conn) register(resultChan chan data) (index int, ok bool) {
+func (c *conn) register(resultChan chan data) (index int, err error) {
 	c.lock.Lock()
 	defer c.lock.Unlock()
+	// nobody would ever answer or fail a call registered on a closed connection
+	if c.closed != nil {
+		return 0, c.closed
+	}
 	for i := 0; i <= 0x7fff; i++ {
 		index = int(atomic.AddInt32(&c.counter, 1) & 0x7fff)
 		if _, used := c.results[index]; !used {
 			c.results[index] = resultChan
-			return index, true
+			return index, nil
 		}
 	}
-	return 0, false
+	return 0, errTooManyPendingCalls
 }
 
 func (c *conn) delete(index int) {
@@ -116,9 +121,9 @@ func (c *conn) Transport(ctx context.Context, request []byte) (response []byte, 
 	}
 	verifYield("before-register")
 	resultChan := make(chan data, 1)
-	index, ok := c.register(resultChan)
-	if !ok {
-		return nil, errTooManyPendingCalls
+	index, err := c.register(resultChan)
+	if err != nil {
+		return nil, err
 	}
 	verifYield("registered")
 	select {
@@ -239,6 +244,14 @@ func (c *conn) Close(err error) {
 		c.onClose(c.Conn)
 		_ = c.Conn.Close()
 	})
+	if err == nil {
+		err = ErrClosed
+	}
+	c.lock.Lock()
+	if c.closed == nil {
+		c.closed = err
+	}
+	c.lock.Unlock()
 	verifYield("before-clean")
 	c.rangeAndClean(func(index int, resultChan chan data) {
 		resultChan <- data{
